@@ -15,7 +15,6 @@ use shuttle::scheduler::{PctScheduler, RandomScheduler};
 use shuttle::{Config, FailurePersistence, MaxSteps, Runner};
 use simcore::driver::{Harness, Tier};
 use simcore::model::{check_against_ref_index, first_diff, kmer_from_bases, probes, transcript};
-use simcore::pipe::base_graph_for;
 use simcore::rec::{digest_str, Digest, Rec, Violation};
 use simcore::rng::Rng;
 use simcore::spec::{gen_graph_spec, shrink_graph_spec, GraphSpec};
@@ -145,12 +144,12 @@ pub fn run_batch(sched: &Sched, seed: u64, n: usize, record: Option<ScheduleLog>
 
 /// Build the BaseGraph through the real pipeline inside a (single-task) shuttle execution:
 /// the pipeline's own hash tables are boomphf maps, whose atomics only exist inside one.
-pub fn build_base<K: Kmer + Send + Sync + 'static>(g: &GraphSpec) -> BaseGraph<K, u16> {
+pub fn build_base<K: Kmer + Send + Sync + Serialize + DeserializeOwned + 'static>(g: &GraphSpec) -> BaseGraph<K, u16> {
     let out: Arc<Mutex<Option<BaseGraph<K, u16>>>> = Arc::new(Mutex::new(None));
     let o2 = out.clone();
     let spec = g.clone();
     Runner::new(RandomScheduler::new_from_seed(0, 1), shuttle_config()).run(move || {
-        let b = base_graph_for::<K>(&spec);
+        let b = simcore::pipe::base_graph_with_provenance::<K>(&spec);
         *o2.lock().unwrap() = Some(b);
     });
     let b = out.lock().unwrap().take().expect("graph built");
